@@ -31,7 +31,8 @@ META = {
                    "read as an exit-code table and checked against the raises that feed them; dataflow ties the "
                    "echoed file and the report_id to their required origins. Necessary conditions only."
                    " Also: Path.read_text/read_bytes as input reads, decoding failures of stdin mapped to the unreadable-input class, the stdin spool as a verbatim single write, and sibling agreement of the early returns of the JSON and CSV writers."
-                   " Round 3: the per-format dispatch dominates every normal return of Report.generate, SHA-256 never over re-encoded text anywhere in the module, nothing of the input's name in the temporary project, probes of the input path mapped to exit 1, file and stdin agree on what is empty.",
+                   " Round 3: the per-format dispatch dominates every normal return of Report.generate, SHA-256 never over re-encoded text anywhere in the module, nothing of the input's name in the temporary project, probes of the input path mapped to exit 1, file and stdin agree on what is empty."
+                   " Round 4: memo rules under report generation (rows shared between reports), emptiness agreement compares what is stripped.",
     "assumptions": ["click.echo(..., err=True), logging and print(file=sys.stderr) write to stderr",
                     "json.dumps/json.loads produce/accept well-formed JSON"],
 }
